@@ -297,3 +297,40 @@ func VH_C19_explicit(kind, prop int) {
 	}
 	vreach("end")
 }
+
+// VH_C19_oneshot: the engine's own mutation on behalf of a request — retiring a one-shot
+// scheduled rule after a {"trigger!":id} event — passes the same write gate as RemRule:
+// without write access the rule stays in memory and in storage; with it the rule goes,
+// as in an unprotected location.
+func VH_C19_oneshot(kind, prop int) {
+	env, in := vhDispatchEnv(kind)
+	_, err := env.loc.AddRule(env.ctx, "os", Map{"schedule": "+1h", "action": vhAction("act")})
+	vassume(err == nil)
+	key := vsymStrN("prop.key", 4)
+	vassume(key != "")
+	ctx := NewContext("caller")
+	ctx.WriteKey = vsymStrN("ctx.writeKey", 4)
+	allowed := true
+	switch prop {
+	case 0:
+		_, err = env.loc.AddFact(env.ctx, "lock", Map{"!writeKey": key})
+		vassume(err == nil)
+		allowed = ctx.WriteKey == key
+	case 1:
+		env.loc.SetReadOnly(env.ctx, true)
+		allowed = false
+	case 2: // unprotected
+	}
+	env.loc.ProcessEvent(ctx, Map{"trigger!": "os"})
+	vassert(len(in.execs) == 1, "triggered-rule-runs")
+	_, gerr := env.state.Get(env.ctx, "os")
+	re := vhOpenEnv(kind, env.ctx, env.store, env.name)
+	_, serr := re.state.Get(re.ctx, "os")
+	if allowed {
+		vassert(gerr != nil && serr != nil, "with-the-right-key-as-unprotected")
+	} else {
+		vassert(gerr == nil, "mutation-only-with-write-access")
+		vassert(serr == nil, "refused-mutation-leaves-storage-unchanged")
+	}
+	vreach("end")
+}
